@@ -64,31 +64,6 @@ pub fn no() -> bool {
     false
 }
 
-/// `memchr::memmem::Finder::find` by its documented contract: the first
-/// occurrence of the needle.
-pub fn memmem_find(f: &memchr::memmem::Finder<'_>, hay: &[u8]) -> Option<usize> {
-    let nd = f.needle();
-    if nd.len() > hay.len() {
-        return None;
-    }
-    let mut i = 0;
-    while i + nd.len() <= hay.len() {
-        let mut k = 0;
-        let mut ok = true;
-        while k < nd.len() {
-            if hay[i + k] != nd[k] {
-                ok = false;
-            }
-            k += 1;
-        }
-        if ok {
-            return Some(i);
-        }
-        i += 1;
-    }
-    None
-}
-
 /// Keeps the packed searcher (SIMD code) out of harnesses whose prefilter is
 /// not a packed one: the `Arc<dyn PrefilterI>` call makes CBMC explore every
 /// implementor. Reaching this stub is a failed check.
@@ -98,4 +73,24 @@ pub fn packed_unused<B: AsRef<[u8]>>(
     _span: aho_corasick::Span,
 ) -> Option<aho_corasick::Match> {
     unreachable!("packed searcher used in a harness that stubs it out")
+}
+
+/// `Vec::extend_from_slice` without the growth path. The replace harnesses
+/// pre-size their output buffers; with the real method every append explores
+/// the reallocation branch (symbolic-length `memcpy` into a fresh object),
+/// which exhausted 24 GB at N=1. The stub appends in place and *asserts* that
+/// the capacity suffices, so a harness whose buffer is too small fails
+/// instead of silently skipping growth.
+#[cfg(kani)]
+pub fn extend_from_slice_nogrow<T: Clone, A: core::alloc::Allocator>(v: &mut Vec<T, A>, other: &[T]) {
+    assert!(v.capacity() - v.len() >= other.len(), "harness output buffer too small");
+    let mut i = 0;
+    while i < other.len() {
+        unsafe {
+            let l = v.len();
+            v.as_mut_ptr().add(l).write(other[i].clone());
+            v.set_len(l + 1);
+        }
+        i += 1;
+    }
 }
